@@ -28,7 +28,7 @@ def pysrc_str(x):
 
 
 LEAN_TYPE.update({"Y": "Load.Y", "YList": "List Load.Y", "Loader": "Unit", "NatList": "List Nat", "YMap": "List (Load.Y × Load.Y)",
-                  "TopoL": "List (List Int)", "IntList": "List Int", "PyInt": "Int", "IntPair": "Int × Int"})
+                  "TopoL": "List (List Int)", "IntList": "List Int", "PyInt": "Int", "IntPair": "Int × Int", "TyName": "String"})
 
 
 class TrLoad(TrAct):
@@ -60,12 +60,18 @@ class TrLoad(TrAct):
             o, t = self.expr(e.value, env)
             if t == "IntPair":
                 return f"{o}.{e.slice.value + 1}", "PyInt"
-        if isinstance(e, ast.Subscript) and not (isinstance(e.value, ast.Name) and e.value.id == "ACCESS_LEVEL_MAP"):
+        if isinstance(e, ast.Subscript) and not (isinstance(e.value, ast.Name) and e.value.id in (
+                "ACCESS_LEVEL_MAP", "VALID_CONFIG_KEYS", "OPTIONAL_CONFIG_KEYS")):
             o, t = self.expr(e.value, env)
             if t == "NatList":
                 i, it = self.expr(e.slice, env)
                 if it == "PyInt":
                     return f"({o}.getD {i}.toNat 0)", "Nat"
+        if isinstance(e, ast.Subscript) and isinstance(e.value, ast.Name) and e.value.id in ("VALID_CONFIG_KEYS", "OPTIONAL_CONFIG_KEYS"):
+            k, kt = self.expr(e.slice, env)
+            if kt != "Y":
+                self.err(e, f"table key of type {kt}")
+            return f"(PyRt.tableGet {e.value.id} {k})", "TyName"
         if isinstance(e, ast.Name) and e.id == "VALID_ACCESS_VALUES" and e.id not in env:
             return "VALID_ACCESS_VALUES", "YList"
         if isinstance(e, ast.Subscript) and isinstance(e.value, ast.Name) and e.value.id == "ACCESS_LEVEL_MAP":
@@ -89,6 +95,8 @@ class TrLoad(TrAct):
                 return "topology", "TopoL"
             if e.attr == "num_hosts":
                 return "num_hosts", "Nat"
+            if e.attr == "yaml_dict":
+                return "yaml_dict", "YMap"
         if isinstance(e, ast.Subscript):
             o, t = self.expr(e.value, env)
             if t == "NatList":
@@ -100,6 +108,12 @@ class TrLoad(TrAct):
 
     def compare(self, e, env):
         op, l, r = e.ops[0], e.left, e.comparators[0]
+        # k in TABLE (one of the module's key tables), k a YAML value
+        if isinstance(op, (ast.In, ast.NotIn)) and isinstance(r, ast.Name) and r.id in ("VALID_CONFIG_KEYS", "OPTIONAL_CONFIG_KEYS"):
+            x, xt = self.expr(l, env)
+            if xt == "Y":
+                s_ = f"(PyRt.tableHas {r.id} {x})"
+                return (s_ if isinstance(op, ast.In) else f"(!{s_})"), "Bool"
         # k in e  (constant key of a known dictionary)
         if isinstance(op, (ast.In, ast.NotIn)) and isinstance(r, ast.Name) and r.id in getattr(self, "known_maps", set()):
             key = self.kconst(l, env)
@@ -158,6 +172,8 @@ class TrLoad(TrAct):
             return f"(PyRt.{fn} {a} {k})", "Bool"
         if ta == "IntPair" and tb == "IntPair" and isinstance(op, (ast.Eq, ast.NotEq)):
             return (f"({a} == {b})" if isinstance(op, ast.Eq) else f"({a} != {b})"), "Bool"
+        if ta == "Nat" and tb == "Nat" and isinstance(op, ast.GtE):
+            return f"(decide ({a} ≥ {b}))", "Bool"
         if ta == "Nat" and tb == "Nat" and isinstance(op, ast.LtE):
             return f"(decide ({a} ≤ {b}))", "Bool"
         if ta == "Y" and tb == "Y" and isinstance(op, ast.Eq):
@@ -189,6 +205,8 @@ class TrLoad(TrAct):
         text = ast.unparse(f)
         if text == "len" and len(e.args) == 1:
             a = e.args[0]
+            if isinstance(a, ast.Name) and a.id in ("VALID_CONFIG_KEYS", "OPTIONAL_CONFIG_KEYS"):
+                return f"{a.id}.length", "Nat"
             if isinstance(a, ast.Call) and ast.unparse(a.func) == "set" and len(a.args) == 1:
                 o, t = self.expr(a.args[0], env)
                 if t != "YList":
@@ -231,6 +249,13 @@ class TrLoad(TrAct):
             o, t = self.expr(f.value, env)
             if t == "YMap":
                 return f"({o}.map (·.2))", "YList"
+        if text == "len" and len(e.args) == 1 and isinstance(e.args[0], ast.Name) and e.args[0].id in ("VALID_CONFIG_KEYS", "OPTIONAL_CONFIG_KEYS"):
+            return f"{e.args[0].id}.length", "Nat"
+        if text == "isinstance" and len(e.args) == 2 and isinstance(e.args[1], ast.Name) \
+                and env.get(e.args[1].id, ("", ""))[1:] == ("TyName",):
+            o, t = self.expr(e.args[0], env)
+            if t == "Y":
+                return f"(PyRt.isInstanceOf {o} {e.args[1].id})", "Bool"
         if text == "isinstance" and len(e.args) == 2 and ast.unparse(e.args[1]) == "tuple":
             o, t = self.expr(e.args[0], env)
             if t == "IntPair":
@@ -539,6 +564,12 @@ def translate_loader():
                "def ACCESS_LEVEL_MAP (x : Load.Y) : Load.Y :=\n"
                + "".join(f"  if x.pyEq {ylit(k)} then {ylit(v)} else\n" for k, v in loader_mod.ACCESS_LEVEL_MAP.items())
                + "  Load.Y.null\n")
+    def table(name, d):
+        out.append(f"/-- `nasim/scenarios/loader.py`: `{name}` (key -> expected type) -/\ndef {name} : List (String × String) := ["
+                   + ", ".join(f'("{k}", "{T_.tyname(t)}")' for k, t in d.items()) + "]\n")
+    table("VALID_CONFIG_KEYS", loader_mod.VALID_CONFIG_KEYS)
+    table("OPTIONAL_CONFIG_KEYS", loader_mod.OPTIONAL_CONFIG_KEYS)
+    emit(mk("_check_scenario_sections_valid", ["yaml_dict"], ["YMap"], []))
     emit(mk("_validate_single_exploit", ["services", "os"], ["YList", "YList"], [("e_name", "Y"), ("e", "Y")]))
     emit(mk("_validate_exploits", ["services", "os"], ["YList", "YList"], [("exploits", "YMap")]))
     emit(mk("_validate_single_privesc", ["processes", "os"], ["YList", "YList"], [("pe_name", "Y"), ("pe", "Y")]))
